@@ -178,7 +178,8 @@ def run(chk, repo, tier):
     if not dexp or not {'D', 'd'} <= both:
         chk.violation(R2, rel, cf.qualname, 'D exponent', 'both 1D1 and 1d1 are Fortran numbers', line=cf.node.lineno,
                       witness='a data item 1d1 raises DatasetError')
-    pm = [c for c in calls_in(cf.node) if dotted(c.func) == 're.match' and isinstance(c.args[0], ast.Constant)]
+    pm = [c for c in calls_in(cf.node) if dotted(c.func) in ('re.match', 're.fullmatch', 're.search') and c.args
+          and isinstance(c.args[0], ast.Constant)]
     ok_pm = False
     for c in pm:
         parsed = list(sre_parse.parse(c.args[0].value))
@@ -300,6 +301,7 @@ def run(chk, repo, tier):
     run_more(chk, repo)
     run_r7(chk, repo)
     run_r9(chk, repo)
+    run_r10(chk, repo)
     run_r8(chk, repo)
 
 
@@ -528,3 +530,36 @@ def run_r9(chk, repo):
                           witness='$DATA f IGNORE=C with flagged records in the middle of the file: they are not removed')
     if n < 2:
         raise AnalysisError(f'R9: only {n} line-anchored comment patterns found in NMTRANDataIO')
+
+
+def run_r10(chk, repo):
+    """convert_fortran_number: the a+b / a-b form (exponent without E) is recognised on the WHOLE item; matched on a prefix it
+    takes the sign of a mantissa for the sign of an exponent (-1.2D-3 -> 'E-1.2')"""
+    R10 = chk.rule('R10', 'convert_fortran_number: the mantissa[+-]exponent pattern must match the whole item (fullmatch or an '
+                          'end anchor)', floor=1)
+    dm = repo.module('pharmpy.model.external.nonmem.dataset')
+    f = dm.functions.get('convert_fortran_number')
+    if f is None:
+        raise AnalysisError('convert_fortran_number not found')
+    n = 0
+    for c in calls_in(f.node):
+        fn = dotted(c.func) or ''
+        if fn.split('.')[-1] not in ('match', 'fullmatch', 'search') or not c.args:
+            continue
+        pat = c.args[0]
+        if isinstance(pat, ast.Name):
+            pat = dm.globals_.get(pat.id, pat)
+        if isinstance(pat, ast.Call) and dotted(pat.func) == 're.compile' and pat.args:
+            pat = pat.args[0]
+        if not (isinstance(pat, ast.Constant) and isinstance(pat.value, str) and '[+-]' in pat.value.replace('\\', '')):
+            continue
+        n += 1
+        whole = fn.endswith('fullmatch') or pat.value.rstrip(')').endswith(('$', '\\Z'))
+        chk.instance(R10, f'convert_fortran_number: {unparse(c)[:80]} matches the whole item: {whole}')
+        if not whole:
+            chk.violation(R10, dm.rel, f.name, unparse(c)[:100],
+                          'the pattern is satisfied by a prefix: for a signed mantissa with a D exponent the empty mantissa and the '
+                          'sign are taken as "mantissa sign exponent"', line=c.lineno,
+                          witness="a data item -1.2D-3 (NM-TRAN: -0.0012): ValueError could not convert string to float 'E-1.2'")
+    if n == 0:
+        raise AnalysisError('R10: the mantissa[+-]exponent pattern of convert_fortran_number was not found')
